@@ -159,7 +159,7 @@ pub fn hdr_err_s(e: &HttpHeaderError) -> String {
             if s.contains('\u{fffd}') {
                 "SizeLimitExceeded(lossy)".to_string()
             } else {
-                format!("SizeLimitExceeded({})", fnv(s.as_bytes()))
+                format!("SizeLimitExceeded({})", hex(s.as_bytes()))
             }
         }
         HttpHeaderError::UnsupportedFeature(k, v) => {
